@@ -2,7 +2,7 @@ SPECIFICATION Spec
 CONSTANTS
   MaxArgs = 3
   EmitCases = TRUE
-  AliasForms = {"ident", "castgeneric2", "binor", "closure2", "less", "reference", "not", "qpathref", "qpathglobal", "closure0"}
+  AliasForms = {"ident", "rawident", "castgeneric2", "binor", "closure2", "less", "reference", "not", "qpathref", "qpathglobal", "closure0"}
 INVARIANTS
   P_C18_Progress
   P_C16_Split
